@@ -425,6 +425,130 @@ def _strategy(tier):
     return specs.any_block_case(tier)
 
 
+# ---------------------------------------------------------------------------------------
+MASK_LAYOUTS = {"none": [], "first": [0], "last": [-1], "middle-run": [3, 4, 5], "ends": [0, -1], "alternating": [0, 2, 4, 6, 8], "all-but-one": [0, 1, 2, 3, 4, 5, 6, 7, 8],
+                "all": list(range(10))}
+
+
+def enum_masked(tier):
+    """gaps expressed with a numpy MaskedArray (np.ma.masked_where(force < threshold, cop)): the masked frames are gaps like NaN frames,
+    whatever value lies under the mask"""
+    from .c14 import FIELDS
+
+    for t in FIELDS:
+        for fi in range(len(FIELDS[t])):
+            for layout in MASK_LAYOUTS:
+                for under in ("finite", "nan", "mixed"):
+                    for others in ("plain", "nan-at-the-same-frames"):
+                        if len(FIELDS[t]) == 1 and others != "plain":
+                            continue
+                        yield {"t": t, "field": fi, "layout": layout, "under": under, "others": others}
+
+
+def run_masked(ctx, case):
+    import numpy as np
+
+    from .c14 import FIELDS, _ramp, _rle_objects
+
+    t, fi, layout, under, others = case["t"], case["field"], case["layout"], case["under"], case["others"]
+    n = 10
+    idx = [k % n for k in MASK_LAYOUTS[layout]]
+    fields = {}
+    for k, (name, w) in enumerate(FIELDS[t]):
+        a = _ramp(n, w, start=3.0 + k)
+        if k == fi:
+            m = np.zeros(a.shape, dtype=bool)
+            m[idx] = True
+            if under in ("nan", "mixed"):
+                a[idx[::2] if under == "mixed" else idx] = np.nan
+            a = np.ma.masked_array(a, mask=m)
+        elif others != "plain":
+            a[idx] = np.nan
+        fields[name] = a
+    ok, blk = ctx.must(lambda: _rle_objects(t, n, [fields]), f"masked/{t}/build", f"constructing a {t} block whose {FIELDS[t][fi][0]} array is a MaskedArray")
+    if ok:
+        cls = specs.lib_class(t)
+        fmt = blk.format.value if hasattr(blk.format, "value") else int(blk.format)
+        check_sizes(ctx, t, f"masked/{t}", blk, lambda: specs.lib_write(blk), lambda s: cls._build(s, fmt))
+        item = list(blk)[0]
+        item = item[1] if isinstance(item, tuple) else item
+        if t != "platData" and hasattr(item, "_write") and hasattr(item, "nBytes"):
+            ok2, w = ctx.must(_wr(item._write), f"masked/{t}/item-encode", f"encoding the {t} item on its own")
+            if ok2 and int(item.nBytes) != len(w):
+                ctx.fail(f"masked/{t}/item-nBytes-vs-written", f"{t} item with a masked {FIELDS[t][fi][0]} array ({layout}): nBytes says {int(item.nBytes)}, its encoding has {len(w)} bytes")
+    ctx.case(case, bool(idx), labels=[t, f"masked:{FIELDS[t][fi][0]}", layout, "under=" + under])
+
+
+def enum_read_orders(tier):
+    """files that hold blocks the library cannot decode between blocks it can: inside ONE context the blocks are read in every order,
+    the undecodable ones included (their read fails - the usual 'catch and skip' loop); every successful read consumes exactly its entry"""
+    import itertools
+
+    layouts = {"opaque-first": ["opaque", "events", "optical"], "opaque-between": ["events", "opaque", "optical"], "two-opaque": ["opaque", "events", "opaque", "platCal"],
+               "opaque-last": ["events", "optical", "opaque"]}
+    for name, kinds in layouts.items():
+        for order in itertools.permutations(range(len(kinds)), min(3, len(kinds))):
+            for again in (False, True):
+                yield {"layout": name, "kinds": kinds, "order": list(order) + ([order[0]] if again else []), "by": "index" if sum(order) % 2 else "type"}
+
+
+def run_read_orders(ctx, case):
+    from basictdf import Tdf
+    from basictdf.tdfBlock import BlockType
+
+    from .c07 import labelled_spec
+
+    blocks, specs_ = [], []
+    opaque_codes = [14, 10, 3]
+    for k, kind in enumerate(case["kinds"]):
+        if kind == "opaque":
+            code = opaque_codes.pop(0)
+            blocks.append({"type": code, "format": 1, "payload": bytes((7 * j + k) & 0xFF for j in range(100 + 36 * k)), "comment": "cannot be decoded", "cdate": 1, "mdate": 2, "adate": 3})
+            specs_.append(None)
+        else:
+            sp = labelled_spec(kind, 2)
+            blocks.append({"type": reftdf.TYPE_CODE[kind], "format": sp["format"], "payload": reftdf.encode(sp), "comment": kind, "cdate": 1, "mdate": 2, "adate": 3})
+            specs_.append(sp)
+    image = reftdf.build_image(len(blocks) + 2, blocks)
+    parsed = reftdf.parse_container(image)
+    d = env.fresh_dir()
+    failed_reads = 0
+    try:
+        path = os.path.join(d, "f.tdf")
+        with open(path, "wb") as f:
+            f.write(image)
+        with Tdf(path) as t:
+            for step, i in enumerate(case["order"]):
+                e = parsed["entries"][i]
+                arg = i if case["by"] == "index" else BlockType(e["type"])
+                try:
+                    blk = t.get_block(arg)
+                except Exception as ex:  # noqa
+                    if specs_[i] is None:
+                        failed_reads += 1     # a block type the library stores but cannot decode: whatever it raises, it is a skipped block
+                        continue
+                    from ..core import lib_frame
+
+                    ctx.fail(f"read-orders/decodable-block-raises-{type(ex).__name__}", f"reading the {case['kinds'][i]} block (step {step} of order {case['order']}, layout "
+                                                                                      f"{case['layout']}) raised {type(ex).__name__}: {str(ex)[:100]} @{lib_frame(ex)}")
+                    continue
+                if specs_[i] is None:
+                    continue
+                pos = t.handler.tell()
+                if pos != e["offset"] + e["size"]:
+                    ctx.fail("read-orders/consumed-vs-entry-size", f"after reading the {case['kinds'][i]} block (step {step} of order {case['order']}, layout {case['layout']}, "
+                                                                   f"{failed_reads} failed reads before) the handle stands at {pos}; the entry says {e['offset']}+{e['size']}")
+                if int(blk.nBytes) != e["size"]:
+                    ctx.fail("read-orders/nBytes-vs-entry-size", f"the {case['kinds'][i]} block read at step {step} of order {case['order']} declares {int(blk.nBytes)} bytes, its entry {e['size']}")
+                dd = specs.first_diff(specs.extract(blk), specs.canon(specs_[i]))
+                if dd:
+                    ctx.fail("read-orders/content", f"the {case['kinds'][i]} block read at step {step} of order {case['order']} (layout {case['layout']}): {dd[0]} is {str(dd[1])[:50]!r}, "
+                                                    f"stored {str(dd[2])[:50]!r}")
+    finally:
+        env.rmdir(d)
+    ctx.case(case, failed_reads > 0, labels=[case["layout"], f"failed-reads={failed_reads}", "by-" + case["by"]])
+
+
 def _items_strategy(tier):
     return specs.any_block_case(tier, min_items=1)
 
@@ -447,6 +571,14 @@ SUBS = [
     Sub("container-big", run_container_big, kind="enum", enumerate=enum_container_big, shards=(6, 6),
         rule="a file with 1 / 4 / 17 MiB of block data behind its first block, which is removed or replaced: every entry's size = bytes occupied = bytes decoded; finite, enumerated",
         nontrivial_required=False),
+    Sub("masked-array-gaps", run_masked, kind="enum", enumerate=enum_masked, shards=(4, 8),
+        rule="EMG / 3D data / 3D force / platform data with ONE sample array handed over as a numpy MaskedArray (gaps expressed by the mask: none, first, last, a run, both ends, "
+             "alternating, all but one, all frames) x what lies under the mask (finite values, NaN, mixed) x the other fields plain or NaN at the same frames: declared = "
+             "written = consumed, for the block and for the item; finite, enumerated", nontrivial_required=False),
+    Sub("container-read-orders", run_read_orders, kind="enum", enumerate=enum_read_orders, shards=(4, 8),
+        rule="files holding undecodable block types before / between / behind decodable ones, read inside ONE context in every order of up to three entries (by index / by "
+             "type, first entry once more at the end); the reads of undecodable blocks fail and are skipped; after every successful read the handle stands at offset + size, "
+             "nBytes = entry size and the content is what was stored; finite, enumerated", nontrivial_required=False),
     Sub("container", run_container, strategy=container_strategy, budget=(150, 4000), shards=(2, 16),
         rule="1..4 generated blocks of distinct types added to a new file; entry sizes vs. independent parse of the file"),
 ]
